@@ -134,18 +134,33 @@ func H_E2E_PowerFailure(v *verifrt.T) {
 	mtime := v.Now().Add(-2 * time.Hour)
 	src := &vSource{v: v, files: map[string]*vSrcFile{"g/a": {name: "g/a", size: size, time: mtime, tag: "v1"}}, order: []string{"g/a"}}
 	wire := &vWire{v: v, tags: map[string]string{"g/a": "v1"}}
+	two := v.Param("FILES", 1) == 2
+	if two {
+		// a second, newer file of the same group: in-order delivery end to end
+		v.Version("v2", 3)
+		src.files["g/b"] = &vSrcFile{name: "g/b", size: 3, time: mtime.Add(time.Minute), tag: "v2"}
+		src.order = []string{"g/b", "g/a"}
+		wire.tags["g/b"] = "v2"
+	}
 	del := v.Bool("delete-after-confirmation")
 	finalDir := filepath.Join(root, "final")
-	deliveries := 0
+	deliveries, deliveriesB := 0, 0
 	consume := func() {
 		for _, f := range v.Files(finalDir) {
 			if strings.HasSuffix(f, ".lck") {
 				continue
 			}
+			if two && f == "g/b" {
+				v.Assert(v.FileIs(filepath.Join(finalDir, f), "v2"), "C01 whatever reaches the final directory is the announced version, byte for byte")
+				v.Assert(deliveries == 1 || v.Exists(filepath.Join(finalDir, "g/a")), "C04 the newer file of a group is never delivered before the older one")
+				deliveriesB++
+				os.Remove(filepath.Join(finalDir, f))
+				continue
+			}
 			v.Assert(f == "g/a" && v.FileIs(filepath.Join(finalDir, f), "v1"), "C01 whatever reaches the final directory is the announced version, byte for byte")
 			deliveries++
-			os.Remove(filepath.Join(finalDir, f))
 		}
+		os.Remove(filepath.Join(finalDir, "g/a"))
 	}
 	var rlog *log.FileIO
 	run := func() {
@@ -214,6 +229,25 @@ func H_E2E_PowerFailure(v *verifrt.T) {
 	v.KillProcess()
 	consume()
 	v.Assert(deliveries == 1, "C05/C06 the file is delivered exactly once, whatever the point of the power failure")
+	if two {
+		v.Assert(deliveriesB == 1, "C05/C06 every file is delivered exactly once, whatever the point of the power failure")
+		// order of the records in the receive log: the older file first
+		var seq []string
+		rlog.Parse(func(name, renamed, hash string, sz int64, t time.Time) bool {
+			seq = append(seq, name)
+			return false
+		}, v.Now().Add(-96*time.Hour), v.Now().Add(time.Hour))
+		seenA := false
+		for _, n := range seq {
+			if n == "g/a" {
+				seenA = true
+			}
+			if n == "g/b" {
+				v.Assert(seenA, "C04 the newer file of a group is never logged as received before the older one")
+			}
+		}
+		v.Reach("two-files")
+	}
 	if !crashed {
 		v.Assert(wire.sent == sentBefore, "C07 a restart after a completed transfer transmits nothing")
 	}
